@@ -69,8 +69,8 @@ def showSel : Option Sel → String
 
 def showSigs (w : World) (vc : ViewCell) : String :=
   match viewSigs w vc with
-  | none => "!ValueError"
-  | some l => "[" ++ "/".intercalate ((l.map showSigOut).mergeSort strLe) ++ "]"
+  | .error e => "!" ++ e
+  | .ok l => "[" ++ "/".intercalate ((l.map showSigOut).mergeSort strLe) ++ "]"
 
 /-- canonical row numbers: rows in order of first appearance, views by ascending handle -/
 def rowNumbering (w : World) : List (Nat × Nat) :=
@@ -98,6 +98,7 @@ def showRow (w : World) (num : List (Nat × Nat)) (r : Nat) : String :=
 def kindName : VKind → String
   | .linear => "linear" | .lazy => "lazy" | .zipnm => "zipnm" | .zipm => "zipm" | .multi => "multi"
   | .standalone => "standalone" | .sbt => "sbt" | .lca => "lca"
+  | .sbtdisk => "sbtdisk" | .sqlite => "sqlite" | .lcasql => "lcasql"
 
 /-- a picklist is a SET of names: printed sorted, without repetitions -/
 def showPicks (ps : List (List String)) : String :=
@@ -108,7 +109,8 @@ def showView (w : World) (num : List (Nat × Nat)) (vc : ViewCell) : String :=
     | .linear => "m=" ++ ",".intercalate (vc.sigs.map (refName "s" w.sigs))
     | .sbt => "m=" ++ ",".intercalate ((vc.sigs.map (refName "s" w.sigs)).mergeSort strLe) ++ ";p=" ++ showPicks vc.picks
     | .lazy => "db=" ++ refName "v" w.views vc.db ++ ";sel=" ++ showSel vc.sel
-    | .zipnm => "sel=" ++ showSel vc.sel
+    | .zipnm | .sqlite | .lcasql => "sel=" ++ showSel vc.sel
+    | .sbtdisk => "p=" ++ showPicks vc.picks
     | .zipm | .multi | .standalone => "rows=" ++ ",".intercalate (vc.rows.map (showRow w num))
     | .lca => s!"n={vc.vals.length};p=" ++ showPicks vc.picks
   kindName vc.kind ++ ";" ++ own ++ ";" ++ showSigs w vc
@@ -217,6 +219,9 @@ def parse (line : String) : Option Obj.Op :=
   | "vstandalone" :: r :: ss => do pure (.vStandalone (← nat? r) (← nats? ss))
   | "vsbt" :: r :: ss => do pure (.vSbt (← nat? r) (← nats? ss))
   | "vlca" :: r :: ss => do pure (.vLca (← nat? r) (← nats? ss))
+  | "vsbtload" :: r :: fmt :: cache :: ss => do pure (.vSbtLoad (← nat? r) (← nat? fmt) (← nat? cache) (← nats? ss))
+  | "vsqlite" :: r :: ss => do pure (.vSqlite (← nat? r) (← nats? ss))
+  | "vlcaload" :: r :: fmt :: ss => do pure (.vLcaLoad (← nat? r) (← nat? fmt) (← nats? ss))
   | ["vinsert", v, s] => do pure (.vInsert (← nat? v) (← nat? s))
   | "vsel" :: r :: v :: kws => do pure (.vSelect (← nat? r) (← nat? v) (← kws? kws))
   | "vselpick" :: r :: v :: names => do pure (.vSelectPick (← nat? r) (← nat? v) (← names.mapM name?))
